@@ -2,6 +2,7 @@ package main
 
 import (
 	"fmt"
+	"go/ast"
 	"go/token"
 	"go/types"
 	"strings"
@@ -14,7 +15,7 @@ func newFuncVC(P *Program, fn *ssa.Function, c *FuncContract) *FuncVC {
 		vals: map[ssa.Value]Term{}, tups: map[ssa.Value][]Term{}, addrs: map[ssa.Value]*Addr{},
 		blockIn: map[*ssa.BasicBlock]Term{}, blockEnd: map[*ssa.BasicBlock]Term{}, blockOut: map[*ssa.BasicBlock]*State{},
 		edgeCond: map[[2]int]Term{}, loops: map[*ssa.BasicBlock]*loopInfo{}, oblCount: map[string]int{},
-		calleesUsed: map[string]bool{}, assumptions: map[string]bool{}}
+		calleesUsed: map[string]bool{}, assumptions: map[string]bool{}, tableFns: map[ssa.Value]*tableRef{}, oblBlk: -1}
 	fv.name = shortFuncName(fn)
 	return fv
 }
@@ -173,6 +174,72 @@ func (fv *FuncVC) rpo() []*ssa.BasicBlock {
 	return post
 }
 
+// bindLocals: `local alias = srcvar` — the SSA value(s) go/ssa's debug info ties to
+// the source variable; usable where exactly one of them dominates the program point.
+func (fv *FuncVC) bindLocals(env *Env, at *ssa.BasicBlock, st *State) {
+	if fv.c == nil {
+		return
+	}
+	for alias, src := range fv.c.Locals {
+		var cands []ssa.Value
+		seen := map[ssa.Value]bool{}
+		var cell ssa.Value
+		for _, b := range fv.fn.Blocks {
+			for _, ins := range b.Instrs {
+				d, ok := ins.(*ssa.DebugRef)
+				if !ok {
+					continue
+				}
+				id, ok := d.Expr.(*ast.Ident)
+				if !ok || id.Name != src {
+					continue
+				}
+				if d.IsAddr {
+					cell = d.X
+					continue
+				}
+				if !seen[d.X] {
+					seen[d.X] = true
+					cands = append(cands, d.X)
+				}
+			}
+		}
+		if cell != nil {
+			if a := fv.addrOf(cell); a != nil {
+				if _, defined := fv.vals[cell]; defined {
+					env.vars[alias] = TV{fv.readAddr(a, st), a.ty}
+				}
+			}
+			continue
+		}
+		var ok []ssa.Value
+		for _, v := range cands {
+			ins, isIns := v.(ssa.Instruction)
+			if !isIns {
+				ok = append(ok, v) // parameter or constant
+				continue
+			}
+			if _, isConst := v.(*ssa.Const); isConst {
+				continue
+			}
+			if (ins.Block() != at || fv.loops[at] == nil) && ins.Block().Dominates(at) {
+				ok = append(ok, v)
+			}
+		}
+		// drop zero-value constants (var x T declarations)
+		var nz []ssa.Value
+		for _, v := range ok {
+			if _, isConst := v.(*ssa.Const); !isConst {
+				nz = append(nz, v)
+			}
+		}
+		if len(nz) == 1 {
+			env.vars[alias] = TV{fv.val(nz[0]), nz[0].Type()}
+		}
+		// otherwise the alias stays unbound here; using it is a binding error (drift)
+	}
+}
+
 func (fv *FuncVC) uniqueResult(i int) ssa.Value {
 	var v ssa.Value
 	for _, b := range fv.fn.Blocks {
@@ -218,6 +285,7 @@ func (fv *FuncVC) loopEnv(li *loopInfo, st *State, phiVal func(*ssa.Phi) Term) *
 			}
 		}
 	}
+	fv.bindLocals(env, li.head, st)
 	var carried []*ssa.Phi
 	var keyPhi *ssa.Phi
 	for _, ins := range li.head.Instrs {
@@ -280,7 +348,7 @@ func (fv *FuncVC) processBlock(b *ssa.BasicBlock) {
 		if len(states) == 1 {
 			st = states[0].clone()
 		} else {
-			st = (&State{kind: sJoin, h: map[string]Term{}, preds: states, guards: guards, fv: fv}).clone()
+			st = (&State{kind: sJoin, h: map[string]Term{}, preds: states, guards: guards, fv: fv, blk: b.Index}).clone()
 		}
 		if li == nil {
 			for _, ins := range b.Instrs {
@@ -300,17 +368,19 @@ func (fv *FuncVC) processBlock(b *ssa.BasicBlock) {
 				p := p
 				env := fv.loopEnv(li, states[i], func(phi *ssa.Phi) Term { return fv.val(phiEdgeValue(phi, b, p)) })
 				if li.spec != nil {
+					fv.oblBlk = b.Index
 					for k, inv := range li.spec.Invariants {
 						goal := env.trBool(inv.E)
 						fv.obligeAt(guards[i], "loop/init", fmt.Sprintf("loop%d/init:inv%d", li.ord, k), clauseProps(inv, fv.props()), goal, token.NoPos,
 							fmt.Sprintf("invariant %s holds on loop entry", exprString(inv.E)), inv.Bounded)
 					}
+					fv.oblBlk = -1
 				}
 			}
 			// havoc what the loop may change
 			fv.epochN++
 			hs := &State{kind: sHavoc, h: map[string]Term{}, parent: st, havocAll: li.havocAll, havoc: li.havoc,
-				site: fmt.Sprintf("L%d", li.ord), guard: in, bound: fv.alloc0, exclude: fv.mods, fv: fv}
+				site: fmt.Sprintf("L%d", li.ord), guard: in, bound: fv.alloc0, exclude: fv.mods, fv: fv, blk: b.Index}
 			hs.havoc["alloc"] = true
 			st = hs.clone()
 			li.state = st
@@ -357,11 +427,13 @@ func (fv *FuncVC) processBlock(b *ssa.BasicBlock) {
 		g := fv.edgeGuard(b, s)
 		env := fv.loopEnv(li, fv.blockOut[b], func(phi *ssa.Phi) Term { return fv.val(phiEdgeValue(phi, s, b)) })
 		if li.spec != nil {
+			fv.oblBlk = b.Index
 			for k, inv := range li.spec.Invariants {
 				goal := env.trBool(inv.E)
 				fv.obligeAt(g, "loop/preserve", fmt.Sprintf("loop%d/preserve:inv%d", li.ord, k), clauseProps(inv, fv.props()), goal, token.NoPos,
 					fmt.Sprintf("invariant %s is preserved", exprString(inv.E)), inv.Bounded)
 			}
+			fv.oblBlk = -1
 		}
 	}
 }
@@ -410,7 +482,7 @@ func (fv *FuncVC) instr(ins ssa.Instruction) {
 			hn := e.elemHeap(arr.Elem())
 			h := fv.st.get(hn)
 			nh := e.fresh(hn, e.heapSortOf(hn))
-			fv.define(eq(nh, app("store", h, id, fmt.Sprintf("((as const (Array Int %s)) %s)", e.sortOf(arr.Elem()), e.zero(arr.Elem())))))
+			fv.define(eq(nh, app("store", h, id, e.constArray("Int", e.sortOf(arr.Elem()), e.zero(arr.Elem())))))
 			fv.st.set(hn, nh)
 		} else {
 			hn := e.cellHeap(el)
@@ -501,6 +573,9 @@ func (fv *FuncVC) instr(ins ssa.Instruction) {
 			return
 		}
 		fv.vals[x] = tup[x.Index]
+		if tr, ok := fv.tableFns[x.Tuple]; ok && x.Index == 0 {
+			fv.tableFns[x] = tr
+		}
 	case *ssa.Convert:
 		fv.defReg(x, fv.convert(x))
 	case *ssa.ChangeType:
@@ -521,7 +596,7 @@ func (fv *FuncVC) instr(ins ssa.Instruction) {
 		id := fv.newId()
 		hn := e.elemHeap(el)
 		nh := e.fresh(hn, e.heapSortOf(hn))
-		fv.define(eq(nh, app("store", fv.st.get(hn), id, fmt.Sprintf("((as const (Array Int %s)) %s)", e.sortOf(el), e.zero(el)))))
+		fv.define(eq(nh, app("store", fv.st.get(hn), id, e.constArray("Int", e.sortOf(el), e.zero(el)))))
 		fv.st.set(hn, nh)
 		fv.defReg(x, app("mk_slice", id, "0", ln, cp))
 	case *ssa.MakeMap:
@@ -763,13 +838,13 @@ func (fv *FuncVC) typeAssert(x *ssa.TypeAssert) {
 		fv.define(eq(okc, ok))
 		vc := e.fresh(x.Name()+"_v", e.sortOf(x.AssertedType))
 		fv.define(eq(vc, app("ite", okc, val, e.zero(x.AssertedType))))
-		fv.assume(implies(okc, fv.wfVal(vc, x.AssertedType, "", 0)))
+		fv.assume(implies(okc, fv.wfVal(vc, x.AssertedType, fv.curAlloc(), 0)))
 		fv.tups[x] = []Term{vc, okc}
 		return
 	}
 	fv.oblige("assert-type", "assert-type", panicProps, ok, x.Pos(), fmt.Sprintf("%s has dynamic type %s", x.X.Name(), x.AssertedType))
 	fv.defReg(x, val)
-	fv.assume(fv.wfVal(fv.val(x), x.AssertedType, "", 0))
+	fv.assume(fv.wfVal(fv.val(x), x.AssertedType, fv.curAlloc(), 0))
 }
 
 func (fv *FuncVC) sliceOp(x *ssa.Slice) {
@@ -855,6 +930,17 @@ func (fv *FuncVC) lookup(x *ssa.Lookup) {
 	has, val, _ := e.mapHeaps(m)
 	id := fv.val(x.X)
 	k := fv.val(x.Index)
+	if tb := fv.tableOf(x.X); tb != nil {
+		fv.tableFns[x] = &tableRef{tb: tb, key: k}
+		if len(tb.Keys) > 0 {
+			// the key set of the table literal (checked by the table's /keys obligation)
+			var ds []Term
+			for _, key := range tb.Keys {
+				ds = append(ds, eq(k, e.strLit(key)))
+			}
+			fv.assume(eq(app("select", app("select", fv.st.get(has), id), k), or(ds...)))
+		}
+	}
 	h := app("select", app("select", fv.st.get(has), id), k)
 	v := app("ite", h, app("select", app("select", fv.st.get(val), id), k), e.zero(m.Elem()))
 	if x.CommaOk {
@@ -929,11 +1015,30 @@ func (fv *FuncVC) rangeNext(x *ssa.Next) {
 	fv.tups[x] = []Term{okc, k, v}
 }
 
+// tableOf: is v the value of a package-level function table that has a table spec?
+func (fv *FuncVC) tableOf(v ssa.Value) *TableSpec {
+	u, ok := v.(*ssa.UnOp)
+	if !ok {
+		return nil
+	}
+	g, ok := u.X.(*ssa.Global)
+	if !ok {
+		return nil
+	}
+	for _, tb := range fv.P.tables {
+		if tb.Pkg == g.Pkg.Pkg.Path() && tb.Var == g.Name() {
+			return tb
+		}
+	}
+	return nil
+}
+
 func (fv *FuncVC) doReturn(x *ssa.Return) {
 	if fv.c == nil {
 		return
 	}
 	env := fv.specEnv(fv.st)
+	fv.bindLocals(env, x.Block(), fv.st)
 	if len(fv.c.Results) > len(x.Results) {
 		specFail("%s: contract names %d results, function returns %d", fv.name, len(fv.c.Results), len(x.Results))
 	}
